@@ -143,6 +143,26 @@ def campaign(c):
             if len(f) != 1 or f[0][14:] != want:
                 c.violation('sem:arg-order', 'arguments were not evaluated left to right exactly once', dict(src=src.decode()))
         c.case(('ord', i), dict(kind='order', src=src.decode()[:300]))
+    # (g) scale: many bindings, each a different value, used in reverse order, re-emitted; many statements; the k-th name must
+    #     still denote the k-th value (names around 2^8 and, in the thorough tier, 2^16 bindings)
+    for n in ([255, 256, 257, 1000] if c.quick else [255, 256, 257, 4096, 65535, 65536, 65537]):
+        L = ['import eth;', 'import std;']
+        for k in range(n): L.append('let v%d = std::be32(%d);' % (k, k * 2654435761 % 2 ** 32))
+        use = [n - 1, 0, 1, 254, 255, 256, n // 2, n - 2] + [(k * 7919) % n for k in range(40)]
+        for k in use:
+            if 0 <= k < n: L.append('eth::frame("|000000000001|", "|000000000002|", v%d, std::be32(%d));' % (k, k))
+        L.append('let p = eth::frame("|000000000001|", "|000000000002|", v%d);' % (n - 1)); L += ['p;'] * 3
+        src = ('\n'.join(L) + '\n').encode()
+        impl, model = progdiff.run_both(c, src)
+        progdiff.compare(c, src, impl, model, 'scale')
+        if impl['outcome'][0] != 'success':
+            c.violation('sem:scale', 'a program with %d bindings was not compiled: %s' % (n, impl['outcome'],), dict(n=n, src=src.decode()[:400000]))
+        else:
+            for fr in [x[1] for x in progdiff.pcap_records(impl['file'])][:-3]:
+                k = int.from_bytes(fr[18:22], 'big')
+                if fr[14:18] != (k * 2654435761 % 2 ** 32).to_bytes(4, 'big'):
+                    c.violation('sem:scale-binding', 'with %d bindings, v%d does not denote the value bound to it' % (n, k), dict(n=n, k=k, src=src.decode()[:400000])); break
+        c.case(('scale', n), dict(kind='scale', bindings=n))
     c.assumptions += ['metamorphic relations are judged on the real binary\'s output; the theorems cover all programs on the model side']
 
 
